@@ -16,6 +16,8 @@ for d in sorted(glob.glob(os.path.join(VERIF, "seeded", "*"))):
     caught = v.get("recheck_caught", v.get("caught"))
     other = v.get("caught_by_other_check")
     first = "yes" if v.get("caught") else ("no -> strengthened, now yes" if v.get("recheck_caught") else "NO")
+    if v.get("caught") and v.get("strengthened_before_evaluation"):
+        first = "no (unreachable by the earlier workload) -> strengthened before the evaluation, now yes"
     if first == "NO" and v.get("not_decided"):
         first = "not decided (outside the statement, see meta.json)"
     if first == "NO" and other and other.get("exit") == 1:
